@@ -746,7 +746,8 @@ func (a *auth) memberSelf(ev *Ev, newM, oldM, jr string) (bool, string) {
 			return true, "3:join-already-joined"
 		}
 		if oldM == "knock" && jr == "public" {
-			a.abstain = true // the specification allows, the library requires "leave"
+			// "if the join_rule is public, allow": a user who knocked and then finds the room public may join
+			return true, "3:join-public-after-knock"
 		}
 		if oldM == "leave" && jr == "public" {
 			return true, "3:join-public"
